@@ -248,7 +248,9 @@ def case_pix(spec, workdir):
         cli.entrypoint(["tile-study", "--placeholder-thumbnail", "--outdir", out, src])
     else:
         pio = PyramidIO(out, default_format=fmt)
-        img = Image.from_array(arr, default_format=fmt)
+        # the image's own default format is independent of the pyramid's tile format (it may be unset, or of the other parity)
+        img_fmt = R.choice([fmt, fmt, None, "fits" if fmt != "fits" else "npy", "png" if mode in ("RGB", "RGBA") and fmt != "png" else fmt])
+        img = Image.from_array(arr, default_format=img_fmt)
         b = Builder(pio)
         if entry == "tile_study_image":
             tiling = tile_study_image(img, pio)
